@@ -8,13 +8,32 @@
 //! `CancelSent` on an order (so held order data is also checked while a cancel is in flight).
 //!
 //! Value classes chosen so that coarse comparisons cannot hide: the three exchange instants are +1 s,
-//! +1 s + 1 µs and +2.5 s (a guard comparing whole seconds or milliseconds sees the first two as equal);
+//! +1 s + 1 ns and +1 day + 0.5 s (a guard comparing whole seconds, milli- or microseconds sees the first
+//! two as equal; the third is on the next calendar day at an EARLIER time of day than the first two, so a
+//! guard that compares the parts of an instant separately - date, time of day - orders them wrongly);
 //! a top of book may be one-sided (third value of the L1 items); the two instruments used have indices 1
 //! and 2 (an unused instrument sorts first on exchange 0) so instrument index != exchange index.
 //!
 //! Entry points: `EngineState::update_from_account / update_from_market` (all models) and, for the
 //! "engine-process" models, the engine's own entry point `Engine::process` with
 //! `EngineEvent::Account(Item) / Market(Item)`, with trading disabled and enabled.
+//!
+//! Several items of one kind behind one container / one message (second hardening round): a second balance
+//! of exchange 0 (another asset) and a second order on the instrument of the first order of exchange 0, and
+//! full account snapshots naming two balances / two orders of one instrument, in both orders of appearance -
+//! "a full account snapshot is subject to the same rule item by item" whatever the state of its other items;
+//! a snapshot that lists an instrument without orders (or only another order of it) names no item and rolls nothing back.
+//!
+//! Connectivity (second hardening round): the link health flags of the engine state (market data / account
+//! per exchange) ride in the explored state and are rebuilt on every step - a freshly built engine state has
+//! every link `Reconnecting`, the first message of a link makes it `Healthy`, so without this every
+//! transition would be executed in the just-started state only. "reconnect" models also offer the
+//! `Reconnecting` notices of both streams as actions (no item may change) and start from both the
+//! just-started and the all-healthy engine.
+//!
+//! Market events of the kinds the default instrument data does not track (liquidations, candles) are offered too
+//! ("other-kinds" models): they either change nothing, or - should an implementation take their price as a
+//! traded price - are judged like a trade message with that timestamp (so they too must not roll anything back).
 //!
 //! Monitor (rides in the state): per item the greatest timestamp delivered so far and the set of
 //! values delivered with it. Invariant after every step (the statement): the held timestamp equals
@@ -29,7 +48,7 @@ use barter::{
     engine::Processor,
     execution::AccountStreamEvent,
     engine::state::{
-        global::DefaultGlobalData, instrument::data::DefaultInstrumentMarketData,
+        connectivity::Health, global::DefaultGlobalData, instrument::data::DefaultInstrumentMarketData,
         order::in_flight_recorder::InFlightRequestRecorder, trading::TradingState,
     },
 };
@@ -37,7 +56,7 @@ use barter_data::{
     books::Level,
     event::{DataKind, MarketEvent},
     streams::consumer::MarketStreamEvent,
-    subscription::{book::OrderBookL1, trade::PublicTrade},
+    subscription::{book::OrderBookL1, candle::Candle, liquidation::Liquidation, trade::PublicTrade},
 };
 use barter_execution::{
     AccountEvent, AccountEventKind, AccountSnapshot, InstrumentAccountSnapshot,
@@ -66,15 +85,38 @@ const BAL: [usize; 2] = [0, 1];
 const ORD: [usize; 2] = [2, 3];
 const L1: [usize; 2] = [4, 5];
 const TRD: [usize; 2] = [6, 7];
-const N_ITEMS: usize = 8;
+/// second balance of exchange 0 (asset btc) / second order on the instrument of ORD[0]
+const BAL2: usize = 8;
+const ORD2: usize = 9;
+const N_ITEMS: usize = 10;
+
+/// exchange (= item group) of an item
+fn exch(i: usize) -> usize {
+    if i >= 8 { 0 } else { i % 2 }
+}
+fn is_bal(i: usize) -> bool {
+    i < 2 || i == BAL2
+}
+fn is_ord(i: usize) -> bool {
+    i == 2 || i == 3 || i == ORD2
+}
+/// label of an order item (client order id `c<label>`, order id `o<label>`)
+fn ord_label(i: usize) -> usize {
+    match i {
+        2 => 0,
+        3 => 1,
+        _ => 2,
+    }
+}
 
 
-/// exchange instant of time index t in {1,2,3}: +1 s, +1 s + 1 µs, +2.5 s
+/// exchange instant of time index t in {1,2,3}: +1 s, +1 s + 1 ns, +1 day + 0.5 s (t0 is 22:13:20 UTC: the
+/// third instant is the greatest, but its time of day is the smallest)
 fn time_of(t: u8) -> chrono::DateTime<chrono::Utc> {
     match t {
         1 => t_plus(1),
-        2 => t_plus(1) + chrono::TimeDelta::microseconds(1),
-        3 => t_plus_ms(2500),
+        2 => t_plus(1) + chrono::TimeDelta::nanoseconds(1),
+        3 => t_plus_ms(86_400_500),
         _ => unreachable!("time index"),
     }
 }
@@ -90,8 +132,8 @@ fn inst(w: usize) -> InstrumentIndex {
 
 fn item_kind(i: usize) -> &'static str {
     match i {
-        0 | 1 => "balance",
-        2 | 3 => "order",
+        0 | 1 | BAL2 => "balance",
+        2 | 3 | ORD2 => "order",
         4 | 5 => "top-of-book",
         _ => "last-trade",
     }
@@ -108,8 +150,11 @@ pub struct ItemSt {
     cancelling: bool,
 }
 
+/// items + link health flags of the engine state (bit 2w: market data of exchange w is Healthy, bit 2w+1:
+/// its account link is Healthy)
 #[derive(Debug, Clone, PartialEq, Eq, Hash)]
-pub struct St(Vec<ItemSt>);
+pub struct St(Vec<ItemSt>, u8);
+const ALL_HEALTHY: u8 = 0b1111;
 
 #[derive(Debug, Clone, PartialEq, Eq, Hash, Serialize, Deserialize)]
 pub enum Act {
@@ -118,6 +163,13 @@ pub enum Act {
     /// full account snapshot of the exchange of these items
     Full(Vec<(usize, u8, u8)>),
     CancelSent(usize),
+    /// full account snapshot of exchange w that names NO item: no balances, the instrument listed without orders
+    FullEmpty(usize),
+    /// `Reconnecting` notice of the account stream (true) / market stream (false) of exchange w
+    Reconnecting(bool, usize),
+    /// market event of a kind that is not tracked (0 = liquidation, 1 = candle) for the instrument of exchange w,
+    /// stamped t, price 100 + v
+    OtherMarket(u8, usize, u8, u8),
 }
 
 pub struct M {
@@ -125,9 +177,15 @@ pub struct M {
     via_engine: Option<TradingState>,
     /// values offered for top-of-book items: 2 (two-sided books) or 3 (plus a one-sided book)
     l1_values: u8,
+    /// offer the streams' `Reconnecting` notices as actions and start from both the just-started engine
+    /// (every link Reconnecting) and the all-healthy engine
+    reconnects: bool,
+    /// offer liquidations and candles
+    other_kinds: bool,
     active: Vec<usize>,
     instruments: IndexedInstruments,
     bal_assets: [AssetIndex; 2],
+    bal2_asset: AssetIndex,
 }
 
 impl M {
@@ -142,7 +200,16 @@ impl M {
         for (w, name) in ["x0_btc_usdt", "x1_eth_usdt"].iter().enumerate() {
             assert_eq!(instruments.instruments()[inst(w).0].value.name_internal.name().as_str(), *name, "harness: instrument order");
         }
-        Self { via_engine: None, l1_values: 2, active: active.to_vec(), instruments, bal_assets: [a0, a1] }
+        let a2 = instruments.find_asset_index(EXCHANGES[0], &AssetNameInternal::new("btc")).unwrap();
+        let m = Self { via_engine: None, l1_values: 2, reconnects: false, other_kinds: false, active: active.to_vec(), instruments, bal_assets: [a0, a1], bal2_asset: a2 };
+        // a freshly built engine state has every link Reconnecting (flags 0) and the flags can be written and read back
+        assert_eq!(m.read(&m.build(&St(vec![ItemSt::default(); N_ITEMS], 0))).1, 0, "harness: link health of a fresh engine state");
+        assert_eq!(m.read(&m.build(&St(vec![ItemSt::default(); N_ITEMS], 0b0110))).1, 0b0110, "harness: link health round trip");
+        m
+    }
+
+    fn asset_of(&self, i: usize) -> AssetIndex {
+        if i == BAL2 { self.bal2_asset } else { self.bal_assets[i % 2] }
     }
 
     /// number of distinct values offered for an item
@@ -155,16 +222,17 @@ impl M {
         self
     }
 
+    /// `which`: an order ITEM id (2, 3, ORD2)
     fn order_key(&self, which: usize) -> OrderKey {
         OrderKey {
-            exchange: ExchangeIndex(which),
-            instrument: inst(which),
+            exchange: ExchangeIndex(exch(which)),
+            instrument: inst(exch(which)),
             strategy: strategy_id(),
-            cid: ClientOrderId::new(format!("c{which}")),
+            cid: ClientOrderId::new(format!("c{}", ord_label(which))),
         }
     }
     fn open(&self, which: usize, t: u8, v: u8) -> Open {
-        Open { id: OrderId::new(format!("o{which}")), time_exchange: time_of(t), filled_quantity: Decimal::from(v) }
+        Open { id: OrderId::new(format!("o{}", ord_label(which))), time_exchange: time_of(t), filled_quantity: Decimal::from(v) }
     }
     fn order_with<S>(&self, which: usize, state: S) -> Order<ExchangeIndex, InstrumentIndex, S> {
         Order {
@@ -199,91 +267,118 @@ impl M {
         .time_engine_start(t0())
         .trading_state(TradingState::Disabled)
         .build();
-        for w in 0..2 {
-            if let Some((t, v)) = s.0[BAL[w]].held {
-                state.assets.asset_index_mut(&self.bal_assets[w]).balance = Some(Timed::new(Self::balance(v), time_of(t)));
-            }
-            let it = s.0[ORD[w]];
-            if let Some((t, v)) = it.held {
-                let st = if it.cancelling {
-                    ActiveOrderState::CancelInFlight(CancelInFlight { order: Some(self.open(w, t, v)) })
-                } else {
-                    ActiveOrderState::Open(self.open(w, t, v))
+        for i in 0..N_ITEMS {
+            let it = s.0[i];
+            let w = exch(i);
+            if is_bal(i) {
+                if let Some((t, v)) = it.held {
+                    state.assets.asset_index_mut(&self.asset_of(i)).balance = Some(Timed::new(Self::balance(v), time_of(t)));
+                }
+            } else if is_ord(i) {
+                let st = match (it.held, it.cancelling) {
+                    (Some((t, v)), true) => Some(ActiveOrderState::CancelInFlight(CancelInFlight { order: Some(self.open(i, t, v)) })),
+                    (Some((t, v)), false) => Some(ActiveOrderState::Open(self.open(i, t, v))),
+                    // only reachable after a violation: cancel in flight without confirmed open data
+                    (None, true) => Some(ActiveOrderState::CancelInFlight(CancelInFlight { order: None })),
+                    (None, false) => None,
                 };
-                state.instruments.instrument_index_mut(&inst(w)).orders.0.insert(self.order_key(w).cid, self.order_with(w, st));
-            }
-            if it.held.is_none() && it.cancelling {
-                // only reachable after a violation: cancel in flight without confirmed open data
-                let st = ActiveOrderState::CancelInFlight(CancelInFlight { order: None });
-                state.instruments.instrument_index_mut(&inst(w)).orders.0.insert(self.order_key(w).cid, self.order_with(w, st));
-            }
-            if let Some((t, v)) = s.0[L1[w]].held {
-                state.instruments.instrument_index_mut(&inst(w)).data.l1 = Self::l1(t, v);
-            }
-            if let Some((t, v)) = s.0[TRD[w]].held {
+                if let Some(st) = st {
+                    state.instruments.instrument_index_mut(&inst(w)).orders.0.insert(self.order_key(i).cid, self.order_with(i, st));
+                }
+            } else if L1.contains(&i) {
+                if let Some((t, v)) = it.held {
+                    state.instruments.instrument_index_mut(&inst(w)).data.l1 = Self::l1(t, v);
+                }
+            } else if let Some((t, v)) = it.held {
                 state.instruments.instrument_index_mut(&inst(w)).data.last_traded_price =
                     Some(Timed::new(Decimal::from(100 + v as i64), time_of(t)));
             }
         }
+        // link health flags
+        let health = |on: bool| if on { Health::Healthy } else { Health::Reconnecting };
+        for w in 0..2 {
+            let c = state.connectivity.connectivity_mut(&EXCHANGES[w]);
+            c.market_data = health(s.1 >> (2 * w) & 1 == 1);
+            c.account = health(s.1 >> (2 * w + 1) & 1 == 1);
+        }
+        state.connectivity.global = health(s.1 == ALL_HEALTHY);
         state
     }
 
-    /// read what the implementation holds for every item: (held, cancelling, readable)
-    fn read(&self, state: &EState) -> Vec<(Option<(u8, u8)>, bool, bool)> {
+    /// read what the implementation holds for every item: (held, cancelling, readable), and the link health flags
+    fn read(&self, state: &EState) -> (Vec<(Option<(u8, u8)>, bool, bool)>, u8) {
         let tt = time_index;
         let mut out = vec![(None, false, true); N_ITEMS];
-        for w in 0..2 {
-            if let Some(b) = &state.assets.asset_index(&self.bal_assets[w]).balance {
-                let v = (0..2u8).find(|v| Self::balance(*v) == b.value);
-                out[BAL[w]] = (Some((tt(b.time), v.unwrap_or(9))), false, v.is_some());
-            }
+        for i in 0..N_ITEMS {
+            let w = exch(i);
             let inst = state.instruments.instrument_index(&inst(w));
-            if let Some(o) = inst.orders.0.get(&self.order_key(w).cid) {
-                let (open, cancelling) = match &o.state {
-                    ActiveOrderState::Open(o) => (Some(o), false),
-                    ActiveOrderState::CancelInFlight(c) => (c.order.as_ref(), true),
-                    ActiveOrderState::OpenInFlight(_) => (None, false),
-                };
-                match open {
-                    Some(op) => {
-                        let v: u8 = op.filled_quantity.try_into().unwrap_or(9);
-                        out[ORD[w]] = (Some((tt(op.time_exchange), v)), cancelling, v < 2);
-                    }
-                    // tracked without confirmed data: readable only as a cancel marker
-                    None => out[ORD[w]] = (None, cancelling, cancelling),
+            if is_bal(i) {
+                if let Some(b) = &state.assets.asset_index(&self.asset_of(i)).balance {
+                    let v = (0..2u8).find(|v| Self::balance(*v) == b.value);
+                    out[i] = (Some((tt(b.time), v.unwrap_or(9))), false, v.is_some());
                 }
-            }
-            if inst.orders.0.len() > 1 || (inst.orders.0.len() == 1 && !inst.orders.0.contains_key(&self.order_key(w).cid)) {
-                out[ORD[w]].2 = false;
-            }
-            let l1 = &inst.data.l1;
-            if *l1 != OrderBookL1::default() {
-                let t = tt(l1.last_update_time);
-                let v = (0..4u8).find(|v| t <= 3 && Self::l1(t, *v) == *l1);
-                out[L1[w]] = (Some((t, v.unwrap_or(9))), false, v.is_some());
-            }
-            if let Some(p) = &inst.data.last_traded_price {
+            } else if is_ord(i) {
+                if let Some(o) = inst.orders.0.get(&self.order_key(i).cid) {
+                    let (open, cancelling) = match &o.state {
+                        ActiveOrderState::Open(o) => (Some(o), false),
+                        ActiveOrderState::CancelInFlight(c) => (c.order.as_ref(), true),
+                        ActiveOrderState::OpenInFlight(_) => (None, false),
+                    };
+                    match open {
+                        Some(op) => {
+                            let v: u8 = op.filled_quantity.try_into().unwrap_or(9);
+                            out[i] = (Some((tt(op.time_exchange), v)), cancelling, v < 2 && op.id == self.open(i, 1, 0).id);
+                        }
+                        // tracked without confirmed data: readable only as a cancel marker
+                        None => out[i] = (None, cancelling, cancelling),
+                    }
+                }
+            } else if L1.contains(&i) {
+                let l1 = &inst.data.l1;
+                if *l1 != OrderBookL1::default() {
+                    let t = tt(l1.last_update_time);
+                    let v = (0..4u8).find(|v| t <= 3 && Self::l1(t, *v) == *l1);
+                    out[i] = (Some((t, v.unwrap_or(9))), false, v.is_some());
+                }
+            } else if let Some(p) = &inst.data.last_traded_price {
                 let v = (0..2u8).find(|v| Decimal::from(100 + *v as i64) == p.value);
-                out[TRD[w]] = (Some((tt(p.time), v.unwrap_or(9))), false, v.is_some());
+                out[i] = (Some((tt(p.time), v.unwrap_or(9))), false, v.is_some());
             }
         }
-        out
+        // an instrument tracking an order that is none of the model's: its order items are unreadable
+        for w in 0..2 {
+            let mine: Vec<usize> = (0..N_ITEMS).filter(|i| is_ord(*i) && exch(*i) == w).collect();
+            let orders = &state.instruments.instrument_index(&inst(w)).orders.0;
+            let known = mine.iter().filter(|i| orders.contains_key(&self.order_key(**i).cid)).count();
+            if orders.len() != known {
+                for i in mine {
+                    out[i].2 = false;
+                }
+            }
+        }
+        let mut conn = 0u8;
+        for w in 0..2 {
+            let c = state.connectivity.connectivity(&EXCHANGES[w]);
+            conn |= ((c.market_data == Health::Healthy) as u8) << (2 * w);
+            conn |= ((c.account == Health::Healthy) as u8) << (2 * w + 1);
+        }
+        (out, conn)
     }
 
     fn deliver(&self, sink: &mut Sink, item: usize, t: u8, v: u8) {
-        let w = item % 2;
+        let w = exch(item);
         match item {
-            0 | 1 => sink.account(AccountEvent {
+            0 | 1 | BAL2 => sink.account(AccountEvent {
                 exchange: ExchangeIndex(w),
                 kind: AccountEventKind::BalanceSnapshot(Snapshot(AssetBalance {
-                    asset: self.bal_assets[w],
+                    asset: self.asset_of(item),
                     balance: Self::balance(v),
                     time_exchange: time_of(t),
                 })),
             }),
-            2 | 3 => {
+            2 | 3 | ORD2 => {
                 let o: Order<ExchangeIndex, InstrumentIndex, OrderState<AssetIndex, InstrumentIndex>> =
-                    self.order_with(w, OrderState::active(self.open(w, t, v)));
+                    self.order_with(item, OrderState::active(self.open(item, t, v)));
                 sink.account(AccountEvent { exchange: ExchangeIndex(w), kind: AccountEventKind::OrderSnapshot(Snapshot(o)) });
             }
             4 | 5 => sink.market(MarketEvent {
@@ -328,6 +423,20 @@ impl Sink {
             }
         }
     }
+    /// the `Reconnecting` notice of the account (true) / market (false) stream of `ex`
+    fn reconnecting(&mut self, account: bool, ex: barter_instrument::exchange::ExchangeId) {
+        match (self, account) {
+            // what `Engine::update_from_account_stream / update_from_market_stream` do with the notice
+            (Sink::State(s), true) => s.connectivity.update_from_account_reconnecting(&ex),
+            (Sink::State(s), false) => s.connectivity.update_from_market_reconnecting(&ex),
+            (Sink::Engine(e), true) => {
+                let _ = e.process(EngineEvent::Account(AccountStreamEvent::Reconnecting(ex)));
+            }
+            (Sink::Engine(e), false) => {
+                let _ = e.process(EngineEvent::Market(MarketStreamEvent::Reconnecting(ex)));
+            }
+        }
+    }
     fn state(&self) -> &EState {
         match self {
             Sink::State(s) => s,
@@ -347,7 +456,8 @@ impl Model for M {
     type Action = Act;
 
     fn init(&self) -> Vec<St> {
-        vec![St(vec![ItemSt::default(); N_ITEMS])]
+        let fresh = St(vec![ItemSt::default(); N_ITEMS], 0);
+        if self.reconnects { vec![fresh.clone(), St(fresh.0, ALL_HEALTHY)] } else { vec![fresh] }
     }
 
     fn actions(&self, s: &St) -> Vec<Act> {
@@ -359,31 +469,55 @@ impl Model for M {
                 }
             }
             // offered in every state: a cancel request may be re-sent while one is in flight
-            if ORD.contains(&i) {
+            if is_ord(i) {
                 v.push(Act::CancelSent(i));
             }
         }
-        // full snapshots: per exchange w, any (balance?, order?) combination with one (t,v) each
+        if self.other_kinds {
+            for w in 0..2 {
+                if self.active.contains(&L1[w]) || self.active.contains(&TRD[w]) {
+                    for kind in 0..2u8 {
+                        for t in 1..=3u8 {
+                            v.push(Act::OtherMarket(kind, w, t, (t + kind) % 2));
+                        }
+                    }
+                }
+            }
+        }
+        if self.reconnects {
+            for w in 0..2 {
+                if self.active.iter().any(|i| exch(*i) == w && (is_bal(*i) || is_ord(*i))) {
+                    v.push(Act::Reconnecting(true, w));
+                }
+                if self.active.iter().any(|i| exch(*i) == w && !(is_bal(*i) || is_ord(*i))) {
+                    v.push(Act::Reconnecting(false, w));
+                }
+            }
+        }
+        // full snapshots: per exchange w, every single account item and every pair of account items with one
+        // (t,v) each; two items of one kind (two balances, two orders of one instrument) in both orders of
+        // appearance inside the snapshot
+        let tv: Vec<(u8, u8)> = (1..=3u8).flat_map(|t| (0..2u8).map(move |v| (t, v))).collect();
         for w in 0..2 {
-            let b = BAL[w];
-            let o = ORD[w];
-            let ba = self.active.contains(&b);
-            let oa = self.active.contains(&o);
-            let tv: Vec<(u8, u8)> = (1..=3u8).flat_map(|t| (0..2u8).map(move |v| (t, v))).collect();
-            if ba {
+            if self.active.iter().any(|i| exch(*i) == w && is_ord(*i)) {
+                v.push(Act::FullEmpty(w));
+            }
+            let mut acct: Vec<usize> = self.active.iter().copied().filter(|i| exch(*i) == w && (is_bal(*i) || is_ord(*i))).collect();
+            acct.sort();
+            for &x in &acct {
                 for &(t, val) in &tv {
-                    v.push(Act::Full(vec![(b, t, val)]));
+                    v.push(Act::Full(vec![(x, t, val)]));
                 }
             }
-            if oa {
-                for &(t, val) in &tv {
-                    v.push(Act::Full(vec![(o, t, val)]));
-                }
-            }
-            if ba && oa {
-                for &(t1, v1) in &tv {
-                    for &(t2, v2) in &tv {
-                        v.push(Act::Full(vec![(b, t1, v1), (o, t2, v2)]));
+            for (k, &x) in acct.iter().enumerate() {
+                for &y in &acct[k + 1..] {
+                    for &(t1, v1) in &tv {
+                        for &(t2, v2) in &tv {
+                            v.push(Act::Full(vec![(x, t1, v1), (y, t2, v2)]));
+                            if is_bal(x) == is_bal(y) {
+                                v.push(Act::Full(vec![(y, t2, v2), (x, t1, v1)]));
+                            }
+                        }
                     }
                 }
             }
@@ -411,7 +545,7 @@ impl Model for M {
 
     fn impl_hash(&self, s: &St) -> Option<u64> {
         let v: Vec<_> = s.0.iter().map(|i| (i.held, i.cancelling)).collect();
-        Some(hash_of(&v))
+        Some(hash_of(&(v, s.1)))
     }
 }
 
@@ -423,17 +557,19 @@ impl M {
                 vec![(*i, *t, *v)]
             }
             Act::Full(items) => {
-                let w = items[0].0 % 2;
+                let w = exch(items[0].0);
                 let mut balances = Vec::new();
-                let mut instruments = Vec::new();
+                let mut instruments: Vec<InstrumentAccountSnapshot<ExchangeIndex, AssetIndex, InstrumentIndex>> = Vec::new();
                 for (i, t, v) in items {
-                    if BAL.contains(i) {
-                        balances.push(AssetBalance { asset: self.bal_assets[w], balance: Self::balance(*v), time_exchange: time_of(*t) });
+                    if is_bal(*i) {
+                        balances.push(AssetBalance { asset: self.asset_of(*i), balance: Self::balance(*v), time_exchange: time_of(*t) });
                     } else {
-                        instruments.push(InstrumentAccountSnapshot {
-                            instrument: inst(w),
-                            orders: vec![self.order_with(w, OrderState::active(self.open(w, *t, *v)))],
-                        });
+                        // orders of one instrument share its instrument snapshot, in the order given
+                        let order = self.order_with(*i, OrderState::active(self.open(*i, *t, *v)));
+                        match instruments.iter_mut().find(|s| s.instrument == inst(w)) {
+                            Some(snap) => snap.orders.push(order),
+                            None => instruments.push(InstrumentAccountSnapshot { instrument: inst(w), orders: vec![order] }),
+                        }
                     }
                 }
                 state.account(AccountEvent {
@@ -442,10 +578,39 @@ impl M {
                 });
                 items.clone()
             }
-            Act::CancelSent(i) => {
-                let w = i % 2;
-                state.state_mut().record_in_flight_cancel(&OrderRequestCancel { key: self.order_key(w), state: RequestCancel { id: None } });
+            Act::FullEmpty(w) => {
+                state.account(AccountEvent {
+                    exchange: ExchangeIndex(*w),
+                    kind: AccountEventKind::Snapshot(AccountSnapshot {
+                        exchange: ExchangeIndex(*w),
+                        balances: vec![],
+                        instruments: vec![InstrumentAccountSnapshot { instrument: inst(*w), orders: vec![] }],
+                    }),
+                });
                 vec![]
+            }
+            Act::CancelSent(i) => {
+                state.state_mut().record_in_flight_cancel(&OrderRequestCancel { key: self.order_key(*i), state: RequestCancel { id: None } });
+                vec![]
+            }
+            Act::Reconnecting(account, w) => {
+                state.reconnecting(*account, EXCHANGES[*w]);
+                vec![]
+            }
+            Act::OtherMarket(kind, w, t, v) => {
+                let price = 100.0 + *v as f64;
+                state.market(MarketEvent {
+                    time_exchange: time_of(*t),
+                    time_received: t_plus(10),
+                    exchange: EXCHANGES[*w],
+                    instrument: inst(*w),
+                    kind: if *kind == 0 {
+                        DataKind::Liquidation(Liquidation { side: Side::Sell, price, quantity: 1.0, time: time_of(*t) })
+                    } else {
+                        DataKind::Candle(Candle { close_time: time_of(*t), open: price, high: price, low: price, close: price, volume: 1.0, trade_count: 1 })
+                    },
+                });
+                vec![] // decided in `judge`: nothing, or a trade message if the last traded price moved
             }
         };
         msgs
@@ -454,10 +619,17 @@ impl M {
     fn judge(&self, s: &St, a: &Act, state: &EState, msgs: Vec<(usize, u8, u8)>, out: &mut Vec<Viol>) -> Option<St> {
         let via = match a {
             Act::Msg(..) => "single",
-            Act::Full(_) => "full-snapshot",
+            Act::Full(_) | Act::FullEmpty(_) => "full-snapshot",
             Act::CancelSent(_) => "cancel-sent",
+            Act::Reconnecting(..) => "reconnecting-notice",
+            Act::OtherMarket(..) => "other-market-event-kind",
         };
-        let got = self.read(state);
+        let (got, conn) = self.read(state);
+        // a liquidation / candle that moved the last traded price is judged as a trade message with its timestamp
+        let msgs = match a {
+            Act::OtherMarket(_, w, t, v) if got[TRD[*w]].0 != s.0[TRD[*w]].held => vec![(TRD[*w], *t, *v)],
+            _ => msgs,
+        };
         let mut next = s.0.clone();
         for i in 0..N_ITEMS {
             let before = s.0[i];
@@ -525,7 +697,7 @@ impl M {
                 }
             }
         }
-        Some(St(next))
+        Some(St(next, conn))
     }
 }
 
@@ -534,28 +706,42 @@ struct Spec {
     active: Vec<usize>,
     via: Option<TradingState>,
     l1_values: u8,
+    reconnects: bool,
+    other_kinds: bool,
 }
 
 fn models(tier: crate::core::Tier) -> Vec<Spec> {
-    let sp = |label, active: &[usize], via, l1_values| Spec { label, active: active.to_vec(), via, l1_values };
+    let sp = |label, active: &[usize], via, l1_values| Spec { label, active: active.to_vec(), via, l1_values, reconnects: false, other_kinds: label.contains("market") };
+    // + the streams' Reconnecting notices as actions, started from the just-started and the all-healthy engine
+    let rc = |label, active: &[usize], via, l1_values| Spec { label, active: active.to_vec(), via, l1_values, reconnects: true, other_kinds: label.contains("market") };
     let mut v = vec![
-        sp("balances", &[BAL[0], BAL[1]], None, 2),
+        rc("balances", &[BAL[0], BAL[1]], None, 2),
         sp("market-data/4-items", &[L1[0], L1[1], TRD[0], TRD[1]], None, 2),
         sp("orders+balance", &[ORD[0], ORD[1], BAL[0]], None, 2),
         sp("one-exchange-mixed", &[BAL[1], ORD[1], L1[1], TRD[1]], None, 2),
         // top of book with a third value: a one-sided book
-        sp("top-of-book-one-sided-or-empty", &[L1[0], L1[1], TRD[0]], None, 4),
+        // (quick: the two books alone; their interplay with the last trade at four values runs through the
+        // engine-process market models below and, in the thorough tier, in the three-item model)
+        sp("top-of-book-one-sided-or-empty/two-books", &[L1[0], L1[1]], None, 4),
         // the engine's own entry point (Engine::process), trading disabled and enabled
         // (items are independent in the code; their interplay is covered by the models above, so the engine
         // wrapper is driven with small item sets: every item kind under both trading states)
-        sp("engine-process/trading=disabled/account-items", &[BAL[0], ORD[0]], Some(TradingState::Disabled), 2),
-        sp("engine-process/trading=disabled/market-items", &[L1[0], TRD[0]], Some(TradingState::Disabled), 4),
-        sp("engine-process/trading=enabled/account-items", &[BAL[1], ORD[1]], Some(TradingState::Enabled), 2),
-        sp("engine-process/trading=enabled/market-items", &[L1[1], TRD[1]], Some(TradingState::Enabled), 4),
+        rc("engine-process/trading=disabled/account-items", &[BAL[0], ORD[0]], Some(TradingState::Disabled), 2),
+        rc("engine-process/trading=disabled/market-items", &[L1[0], TRD[0]], Some(TradingState::Disabled), 4),
+        rc("engine-process/trading=enabled/account-items", &[BAL[1], ORD[1]], Some(TradingState::Enabled), 2),
+        rc("engine-process/trading=enabled/market-items", &[L1[1], TRD[1]], Some(TradingState::Enabled), 4),
+        // several items of one kind behind one container / in one full snapshot (exchange 0)
+        rc("two-balances-of-one-exchange", &[BAL[0], BAL2], None, 2),
+        sp("two-orders-of-one-instrument", &[ORD[0], ORD2], None, 2),
     ];
     if tier == crate::core::Tier::Thorough {
+        v.push(sp("top-of-book-one-sided-or-empty", &[L1[0], L1[1], TRD[0]], None, 4));
         v.push(sp("account-items/4", &[BAL[0], BAL[1], ORD[0], ORD[1]], None, 2));
-        v.push(sp("cross-exchange-mixed/5", &[BAL[0], ORD[0], L1[0], TRD[1], ORD[1]], None, 2));
+        v.push(sp("exchange-0-account/two-balances+order", &[BAL[0], BAL2, ORD[0]], None, 2));
+        v.push(rc("engine-process/trading=enabled/two-orders+balance", &[BAL[0], ORD[0], ORD2], Some(TradingState::Enabled), 2));
+        // (second round: four items instead of five - the five-item product took 3/4 of the thorough budget; two
+        // orders of two exchanges together are in "account-items/4")
+        v.push(sp("cross-exchange-mixed/4", &[BAL[0], ORD[0], L1[0], TRD[1]], None, 2));
         v.push(sp("engine-process/trading=disabled/exchange-0-mixed", &[BAL[0], ORD[0], L1[0], TRD[0]], Some(TradingState::Disabled), 2));
         v.push(sp("engine-process/trading=enabled/cross-exchange", &[BAL[1], ORD[0], L1[1], TRD[0]], Some(TradingState::Enabled), 3));
     }
@@ -565,6 +751,8 @@ fn models(tier: crate::core::Tier) -> Vec<Spec> {
 fn model(sp: &Spec) -> M {
     let mut m = M::new(&sp.active);
     m.l1_values = sp.l1_values;
+    m.reconnects = sp.reconnects;
+    m.other_kinds = sp.other_kinds;
     match sp.via {
         None => m,
         Some(t) => m.via_engine(t),
@@ -587,7 +775,7 @@ pub fn run(ctx: &Ctx) -> Outcome {
         transitions += st.transitions;
         max_depth = max_depth.max(st.max_depth);
         impl_states += st.distinct_impl_states;
-        parts.push(json!({"model": label, "entry_point": if via.is_some() { "Engine::process" } else { "EngineState::update_from_account / update_from_market" }, "active_items": active, "top_of_book_values": sp.l1_values, "states": st.states, "transitions": st.transitions, "max_depth": st.max_depth,
+        parts.push(json!({"model": label, "entry_point": if via.is_some() { "Engine::process" } else { "EngineState::update_from_account / update_from_market" }, "active_items": active, "top_of_book_values": sp.l1_values, "reconnecting_notices_and_healthy_start": sp.reconnects, "liquidations_and_candles_offered": sp.other_kinds, "states": st.states, "transitions": st.transitions, "max_depth": st.max_depth,
             "distinct_impl_states": st.distinct_impl_states, "steps_with_oracle_violation": st.oracle_violation_steps}));
         samples.extend(st.samples);
     }
@@ -603,12 +791,12 @@ pub fn run(ctx: &Ctx) -> Outcome {
             "distinct_impl_states": impl_states,
             "models": parts,
             "samples": samples,
-            "rule": "BFS to fixpoint; items: 0,1 balances; 2,3 orders; 4,5 top of book; 6,7 last trade; messages (item, t in 1..3, value in 2; top of book: up to 4 values, the third a one-sided book, the fourth an empty book) + full account snapshots + cancel-sent, all offered in every state; each transition rebuilds the real EngineState and applies the message through update_from_account / update_from_market, or (engine-process models) rebuilds a real Engine around that state and applies it through Engine::process",
+            "rule": "BFS to fixpoint; items: 0,1 balances (one per exchange), 8 a second balance of exchange 0; 2,3 orders (one per exchange), 9 a second order on the instrument of order 2; 4,5 top of book; 6,7 last trade; the link health flags of the engine state ride in the state (reconnect models: Reconnecting notices as actions, start from just-started and all-healthy); 'market' models also offer liquidation and candle events (must change nothing, or act as a trade message); full account snapshots name one or two account items of an exchange (two of one kind in both orders of appearance); messages (item, t in 1..3, value in 2; top of book: up to 4 values, the third a one-sided book, the fourth an empty book) + full account snapshots + cancel-sent, all offered in every state; each transition rebuilds the real EngineState and applies the message through update_from_account / update_from_market, or (engine-process models) rebuilds a real Engine around that state and applies it through Engine::process",
         }),
         assumptions: vec![
             "L1 events carry last_update_time == time_exchange (as every connector builds them)".into(),
             "order reports keep quantity remaining > 0 (terminal reports belong to C01)".into(),
-            "three exchange instants (+1 s, +1 s + 1 us, +2.5 s), two values per item (up to four for top of book: two two-sided, one one-sided, one empty)".into(),
+            "three exchange instants (+1 s, +1 s + 1 ns, +1 day + 0.5 s - the greatest instant has the smallest time of day), two values per item (up to four for top of book: two two-sided, one one-sided, one empty)".into(),
         ],
     }
 }
